@@ -55,6 +55,7 @@ type EnvOp struct {
 	Svc     string     `json:"svc,omitempty"`
 	Prod    string     `json:"prod,omitempty"`
 	Suffix  *string    `json:"suffix,omitempty"`
+	RelFail *int       `json:"relfail,omitempty"` // the n-th WithBytesFunc of this operation returns its result together with a release error
 }
 
 type EnvObs struct {
@@ -445,6 +446,11 @@ func (x *envExec) doInner(op EnvOp) (ob EnvObs) {
 	x.crypto.TakeRetained()
 	x.kmsSpy.TakeRetained()
 	x.sf.FailedNew = nil
+	if op.RelFail != nil {
+		x.sf.ResetOp(*op.RelFail)
+	} else {
+		x.sf.ResetOp(-1)
+	}
 	ctx, cancel := context.WithCancel(context.Background())
 	defer cancel()
 	x.faults.Cancel = cancel
